@@ -33,4 +33,10 @@ let () =
         VT [elem triple (Model.c06_decode_valid s); elem (fun b -> VBool b) (Model.c06_is_segwit_addr s);
             elem (fun b -> VBool b) (Model.c06_is_addr sha256 s)]) (vl l))) | _ -> bad ());
   register "c06_encode_batch" (function [l] ->
-      ROk (VL (List.map (fun it -> let (d, v, n) = item3 it in elem (fun b -> VB b) (Model.c06_segwit_addr d v n)) (vl l))) | _ -> bad ())
+      ROk (VL (List.map (fun it -> let (d, v, n) = item3 it in elem (fun b -> VB b) (Model.c06_segwit_addr d v n)) (vl l))) | _ -> bad ());
+  register "c06_cli_bech32_decode" (function [a] ->
+      of_result (function Model.CliSegwit (h, v, p) -> VT [VS (bytes_of_string "segwit"); VB h; VI v; VB p]
+                        | Model.CliBech32 (h, p) -> VT [VS (bytes_of_string "bech32"); VB h; VB p])
+        (Model.c06_cli_bech32_decode (vb a)) | _ -> bad ());
+  register "c06_cli_bech32_encode" (function [h; d; w; pr] ->
+      of_result (fun b -> VB b) (Model.c06_cli_bech32_encode (vb h) (vb d) (vopt vi w) (vbool pr)) | _ -> bad ())
